@@ -53,8 +53,8 @@ prop("C02", engine="eval", prefixes=["C02."], level="model_checking",
      quick=dict(traces=128, nops=30), thorough=dict(traces=3200, nops=45))
 prop("C05", engine="eval", prefixes=["C05."], level="model_checking",
      mc=("MxEval", "MC_MxEval_quick.cfg", "MC_MxEval_thorough.cfg"),
-     jobs=lambda tier: [("fail", dict(gen=dict(p_raise=0.2, p_none=0.1, p_catch=0.2))),
-                        ("fail", dict(gen=dict(p_raise=0.1, p_none=0.05), maxdepth=3))],
+     jobs=lambda tier: [("fail", dict(gen=dict(p_raise=0.2, p_none=0.1, p_catch=0.2, p_base_exc=0.3))),
+                        ("fail", dict(gen=dict(p_raise=0.1, p_none=0.05, p_base_exc=0.2), maxdepth=3))],
      quick=dict(traces=96, nops=25), thorough=dict(traces=2400, nops=40))
 prop("C06", engine="eval", prefixes=["C06."], level="model_checking",
      mc=("MxEval", "MC_MxEval_quick.cfg", "MC_MxEval_thorough.cfg"),
@@ -115,6 +115,8 @@ prop("C04", engine="inh", worker="make_c04_trace", prefixes=["C04."], level="mod
      jobs=lambda tier: [("c04", dict())],
      quick=dict(traces=96, nops=26), thorough=dict(traces=3000, nops=40))
 prop("C07", engine="inh", worker="make_dyn_trace", prefixes=["C07."], level="model_checking",
+     mc=("MxDyn", "MC_MxDyn_quick.cfg", "MC_MxDyn_thorough.cfg"),
+     mbt_opts={"deep": True, "handles": True}, mbt_limit={"quick": 3000, "thorough": 40000},
      jobs=lambda tier: [("dyn", dict()), ("dyn", dict(gen=dict(p_uncached=0.4)))],
      quick=dict(traces=192, nops=28), thorough=dict(traces=5000, nops=45),
      also=["C02.NoStale", "C01.Transparent", "C06.ExactDiscard"])
@@ -320,8 +322,12 @@ def run_mc(cfg, tier, seed):
             if key in seen:
                 continue
             seen.add(key)
-            defs = inst["inits"][h[0]["id"] - 1]
-            ops = h[1:] + sweep_ops(defs)
+            if module in instances.TRANSLATE:
+                defs, ops = instances.TRANSLATE[module](inst, h)
+                ops = ops + dyn_sweep(ops)
+            else:
+                defs = inst["inits"][h[0]["id"] - 1]
+                ops = h[1:] + sweep_ops(defs)
             jobs.append((defs, ops, dict(cfg.get("mbt_opts", {"deep": True}))))
         limit = cfg.get("mbt_limit", {}).get(tier)
         if limit and len(jobs) > limit:
@@ -336,6 +342,18 @@ def run_mc(cfg, tier, seed):
         return r, traces, verdicts
     finally:
         os.unlink(ipath)
+
+
+def dyn_sweep(ops):
+    """After a replayed ItemSpace history: query again every dynamic element that was queried."""
+    seen, out = set(), []
+    for op in ops:
+        if op["op"] == "call":
+            key = json.dumps(op, sort_keys=True)
+            if key not in seen:
+                seen.add(key)
+                out.append(dict(op))
+    return out
 
 
 def sweep_ops(defs):
